@@ -1,5 +1,6 @@
 """C11 – reordering glyphs leaves every table's meaning intact."""
 import io
+import os
 from collections import OrderedDict
 
 from hypothesis import strategies as st
@@ -318,7 +319,7 @@ def build_font_for(case):
         t.LookupList.LookupCount = len(t.LookupList.Lookup)
     buf = io.BytesIO()
     font.save(buf)
-    return TTFont(io.BytesIO(buf.getvalue()), lazy=False)
+    return buf.getvalue()
 
 
 def colr_sem(font):
@@ -344,20 +345,39 @@ def colr_sem(font):
 
 
 def judge(case):
+    from fontTools.ttLib import TTFont
     from nanoemoji.reorder_glyphs import reorder_glyphs
     from nanoemoji.util import load_fully
 
     v = Verdict()
     try:
-        font = build_font_for(case)
+        data = build_font_for(case)
     except Exception as e:
         v.discard = "generator: %s" % type(e).__name__
         v.extra["gen_error:" + str(e)[:40]] = 1
         return v
-    font = load_fully(font)
-    before = dict(layout_sem(font))
-    before.update(base_sem(font))
-    before["COLR"] = colr_sem(font)
+    # the facts "before" are read from an instance of their own, so that reading them cannot decode anything in the font that is
+    # about to be reordered; that font is obtained the way the callers do it: nanoemoji.util.load_fully on a path, on a lazily
+    # opened font, on a default-opened font or on a fully loaded one
+    ref = TTFont(io.BytesIO(data), lazy=False)
+    before = dict(layout_sem(ref))
+    before.update(base_sem(ref))
+    before["COLR"] = colr_sem(ref)
+    how = (sum(len(x) for x in case["perm"]) + len(case["perm"])) % 4
+    v.cls("load_fully:" + ["path", "lazy", "default", "eager"][how])
+    tmp = None
+    if how == 0:
+        import tempfile
+        from pathlib import Path
+
+        fd, tmp = tempfile.mkstemp(prefix="nanoverif-c11-", suffix=".ttf")
+        with os.fdopen(fd, "wb") as fh:
+            fh.write(data)
+        font = load_fully(Path(tmp))
+    else:
+        font = load_fully(TTFont(io.BytesIO(data), lazy={1: True, 2: None, 3: False}[how]))
+    if tmp:
+        os.unlink(tmp)
     unhandled = [k for k, x in before.items() if isinstance(x, tuple) and x and x[0] == "UNHANDLED"]
     if unhandled:
         raise AssertionError("layoutsem cannot express %s" % [before[k] for k in unhandled])
